@@ -399,6 +399,12 @@ pub fn generate(group: &str, r: &mut Rng, n: usize) -> Vec<Value> {
                         7 => ops.push(json!({"op":"log_encode","vid":*r.pick(&all_ids)})),
                         8 => ops.push(json!({"op":"slack_convert","cid":aim(r, &act, &rem),"max":*r.pick(&[2u64, 10, 1000]),"points":"auto"})),
                         9 => ops.push(json!({"op":"slack_add","cid":aim(r, &act, &rem),"ub":1 + r.below(4),"points":"auto"})),
+                        10 if r.chance(1, 2) => {
+                            // the rest of the to-QUBO pipeline: penalise, instantiate the weights, continue unconstrained
+                            let ws: Vec<Value> = (0..3).map(|_| q(r.range(0, 6), 2)).collect();
+                            ops.push(json!({"op":"penalty_chain","uniform":r.chance(1, 2),"weights":ws}));
+                            act.clear();
+                        }
                         10 => ops.push(json!({"op":*r.pick(&["penalty", "uniform_penalty", "used_ids", "validate"])})),
                         _ => ops.push(json!({"op":*r.pick(&["pubo", "qubo", "typed"])})),
                     }
@@ -406,6 +412,34 @@ pub fn generate(group: &str, r: &mut Rng, n: usize) -> Vec<Value> {
                 let st: Vec<(u64, Value)> = free.iter().map(|id| (*id, val(r, *id))).collect();
                 ops.push(json!({"op":"evaluate","st":st_json(&st),"fill":r.below(1 << 20)}));
                 out.push(json!({"ev":"seq","case":format!("d-mixed-seq-{k}"),"src":"drive","in":{"inst":j,"ops":ops}}));
+            }
+        }
+        "pipeline" => {
+            // the to-QUBO pipeline on small integer programs: minimise, log-encode every integer variable, turn every
+            // inequality into an equality with an integer slack, encode the slacks, penalise, instantiate the weights,
+            // export PUBO/QUBO; evaluations in between
+            for k in 0..n {
+                let with_removed = r.chance(1, 3);
+                let inst = rand_instance(r, &InstOpts { max_deg: 1, int_only: true, boxed: true, with_deps: false, with_removed, max_cons: 2, coef_den: 1 });
+                let mut j = inst.json.clone();
+                for c in j["constraints"].as_array_mut().unwrap() {
+                    if r.chance(2, 3) { c["eq"] = json!("le"); }
+                }
+                let cids: Vec<u64> = inst.active.clone();
+                let st: Vec<(u64, Value)> = inst.vars.iter().map(|v| (v.id, v.value(r))).collect();
+                let mut ops = vec![json!({"op":"evaluate","st":st_json(&st)}), json!({"op":"as_min"})];
+                if r.chance(1, 2) { ops.push(json!({"op":"encode_all_integers"})); }
+                for c in &cids {
+                    ops.push(json!({"op":"slack_convert","cid":c,"max":1000,"points":"auto"}));
+                }
+                ops.push(json!({"op":"encode_all_integers"}));
+                ops.push(json!({"op":"evaluate","st":[],"fill":r.below(1 << 20),"fill_all":true}));
+                let ws: Vec<Value> = (0..3).map(|_| q(r.range(0, 6), 2)).collect();
+                ops.push(json!({"op":"penalty_chain","uniform":r.chance(1, 2),"weights":ws}));
+                ops.push(json!({"op":"pubo"}));
+                ops.push(json!({"op":"qubo"}));
+                ops.push(json!({"op":"evaluate","st":[],"fill":r.below(1 << 20),"fill_all":true}));
+                out.push(json!({"ev":"seq","case":format!("d-pipeline-seq-{k}"),"src":"drive","in":{"inst":j,"ops":ops}}));
             }
         }
         "penalty" => {
